@@ -435,7 +435,8 @@ class E4Session(SessionBase):
         path = deepcopy(compute_constrained_path(self.network, req))
         propagate(path, req, self.equipment)
         rx = path[-1]
-        return {k: np.array(getattr(rx, k), dtype=float) for k in ('snr_01nm', 'osnr_ase_01nm', 'osnr_nli')}
+        return {k: np.array(getattr(rx, k), dtype=float) for k in ('snr_01nm', 'osnr_ase_01nm', 'osnr_nli',
+                                                                  'chromatic_dispersion', 'pmd', 'pdl', 'latency')}
 
     def do_probe(self):
         if self.discarded or not self.designed:
@@ -455,11 +456,11 @@ class E4Session(SessionBase):
         for k, v in fig.items():
             with np.errstate(invalid='ignore'):
                 ref = self.probe_ref[1][k]
-                bad = ~(np.isclose(v, ref, rtol=0, atol=1e-4) | (np.isinf(v) & np.isinf(ref)) | (np.isnan(v) & np.isnan(ref))) \
+                bad = ~(np.isclose(v, ref, rtol=1e-6, atol=1e-4) | (np.isinf(v) & np.isinf(ref)) | (np.isnan(v) & np.isnan(ref))) \
                     if v.shape == ref.shape else np.array([True])
             if v.shape != self.probe_ref[1][k].shape or np.any(bad):
                 raise Violation('C17', 'saved-design-gives-different-propagation-results',
-                                f'{k}: max diff {float(np.nanmax(np.abs(v - self.probe_ref[1][k]))):.2e} dB')
+                                f'{k}: max diff {float(np.nanmax(np.abs(v - self.probe_ref[1][k]))):.3e}')
         self.st.probes['probe_compared'] += 1
         return {'kind': 'same'}
 
@@ -508,6 +509,9 @@ SIM_DOCS = [
                     'computed_number_of_channels': 3}},
     {'raman_params': {'flag': True, 'result_spatial_resolution': 20e3, 'solver_spatial_resolution': 1e3, 'order': 1},
      'nli_params': {'method': 'gn_model_analytic', 'computed_channels': [1, 2]}},
+    {'raman_params': {'flag': True, 'result_spatial_resolution': 50e3, 'solver_spatial_resolution': 500},
+     'nli_params': {'method': 'gn_model_analytic', 'dispersion_tolerance': 1, 'phase_shift_tolerance': 0.1,
+                    'computed_channels': [1, 3], 'computed_number_of_channels': 2}},
 ]
 
 
